@@ -1,11 +1,12 @@
 """Site extractor for C05: the decisions at the scipy.sparse boundary.
 
-generate(repo) -> ({"S_scipy.v": text}, report)
+generate(repo) -> ({"S_scipyconv.v": text}, report)
 
 Read off the AST (fail-closed: any structural surprise raises):
   * `_compressed/compressed.py:_canonical_scipy(x)`: the condition under which the matrix is re-canonicalised
-    (`if not x.has_canonical_format:` then exactly `x = x.copy(); x.sum_duplicates()`), as a boolean function of
-    the flag -> s_canonical_scipy_recanon;
+    (`if not x.has_canonical_format:`), as a boolean function of the flag -> s_canonical_scipy_recanon, and whether
+    the in-place scipy calls of its body (`x.sum_duplicates()`) come after a fresh rebinding (`x = x.copy()`), i.e.
+    never touch the caller's matrix -> s_canonical_scipy_copies_first;
   * `GCXS.from_scipy_sparse`: calls `_canonical_scipy` on the matrix whose arrays it then stores unchanged, and
     chooses `compressed_axes = (1,) if x.format == "csc" else (0,)` -> s_from_scipy_axis;  `CSR/CSC.from_scipy_sparse`
     call `_canonical_scipy` on the csr / csc form;
@@ -75,11 +76,21 @@ def generate(repo):
     # _canonical_scipy
     fn = _find(cp, None, "_canonical_scipy")
     b = _body(fn)
-    if not (len(b) == 2 and isinstance(b[0], ast.If) and not b[0].orelse and ast.unparse(b[1]) == "return x"
-            and [ast.unparse(s) for s in b[0].body] == ["x = x.copy()", "x.sum_duplicates()"]):
+    if not (len(b) == 2 and isinstance(b[0], ast.If) and not b[0].orelse and ast.unparse(b[1]) == "return x"):
         raise Shape("_canonical_scipy changed:\n" + ast.unparse(fn))
+    stmts = [ast.unparse(s) for s in b[0].body]
+    # the body may only rebind x to a fresh copy and canonicalise in place; scipy's sum_duplicates() /
+    # sort_indices() / eliminate_zeros() mutate the matrix they are called on
+    FRESH, INPLACE = {"x = x.copy()", "x = x.sorted_indices()"}, {"x.sum_duplicates()", "x.sort_indices()", "x.eliminate_zeros()"}
+    if any(t not in FRESH | INPLACE for t in stmts) or "x.sum_duplicates()" not in stmts:
+        raise Shape("_canonical_scipy changed:\n" + ast.unparse(fn))
+    first_inplace = min(i for i, t in enumerate(stmts) if t in INPLACE)
+    copies_first = any(t in FRESH for t in stmts[:first_inplace])
     defs.append(("s_canonical_scipy_recanon", "(flag : bool) : bool", trb(b[0].test, "x.has_canonical_format"),
-                 "_canonical_scipy: sum_duplicates() on a copy iff " + ast.unparse(b[0].test)))
+                 "_canonical_scipy: sum_duplicates() iff " + ast.unparse(b[0].test)))
+    defs.append(("s_canonical_scipy_copies_first", ": bool", "true" if copies_first else "false",
+                 "_canonical_scipy: the in-place scipy calls (" + "; ".join(t for t in stmts if t in INPLACE)
+                 + ") run on a fresh copy (" + "; ".join(t for t in stmts[:first_inplace]) + "), never on the caller's matrix"))
 
     # GCXS.from_scipy_sparse
     fn = _find(cp, "GCXS", "from_scipy_sparse")
@@ -135,7 +146,7 @@ def generate(repo):
     defs.append(("s_coo_to_scipy_flag", ": bool", "true", "COO.to_scipy_sparse: result.has_canonical_format = True"))
 
     h = hashlib.sha256("\n".join(f"{n}{sig}{body}" for n, sig, body, _c in defs).encode()).hexdigest()[:16]
-    out = ["(* Gen/S_scipy.v — GENERATED by tools/sitegen/scipyconv.py from " + CP + " and " + CO + ".",
+    out = ["(* Gen/S_scipyconv.v — GENERATED by tools/sitegen/scipyconv.py from " + CP + " and " + CO + ".",
            "   Do not edit.  digest: " + h + " *)", "From Coq Require Import ZArith Bool.", "Open Scope Z_scope.", ""]
     rep = {}
     for name, sig, body, comment in defs:
@@ -143,4 +154,4 @@ def generate(repo):
         out.append(f"Definition {name} {sig} := {body}.")
         out.append("")
         rep[name] = {"status": "ok", "source": comment}
-    return {"S_scipy.v": "\n".join(out)}, rep
+    return {"S_scipyconv.v": "\n".join(out)}, rep
